@@ -657,27 +657,68 @@ def horner_text_rule(fn, consts, precs=(0, 100), shapes=None, class_node=None):
                     return Opaque("B")
             raise AnalysisError(f"attribute {ast.unparse(n_)}")
 
-        def rec(it, n_, args, kw):
-            a = args[0]
-            if isinstance(a, Opaque) and (a.what == "B" or a.what.startswith("C")):
-                return a.what       # an atom: prints as its own name
-            raise AnalysisError(f"printing of {a!r}")
-        for prec in precs:
-            self_v = Opaque("self")
-            it = Interp(calls={f"{me}.rec": rec, me: rec,
-                               **helper_calls(me, class_node, self_v)},
-                        attrs=attrs)
-            env = dict(consts)
-            try:
-                got = it.call_function(fn, [self_v, Opaque("node"), prec], env)
-            except Raised as r:
-                got = None
-            want = horner_value(exps)
-            val = _poly_of_source(got) if isinstance(got, str) else None
-            if val is None or val != want:
-                wit.append((exps, prec, got, repr(want)))
-                break
+        p_pow = consts.get("PREC_POWER")
+        p_sum = consts.get("PREC_SUM")
+        if not isinstance(p_pow, int) or not isinstance(p_sum, int):
+            raise AnalysisError("PREC_POWER / PREC_SUM not found")
+        for power_base in (False, True):
+            def rec(it, n_, args, kw, _pb=power_base):
+                a = args[0]
+                if isinstance(a, Opaque) and a.what == "B" and _pb:
+                    # the base is itself a power b**2: it prints the way
+                    # map_power does, with parentheses above power level
+                    pr = args[1] if len(args) > 1 else 0
+                    if not isinstance(pr, int):
+                        raise AnalysisError("precedence handed to the base")
+                    return "(b**2)" if pr > p_pow else "b**2"
+                if isinstance(a, Opaque) and (a.what == "B"
+                                              or a.what.startswith("C")):
+                    return a.what       # an atom: prints as its own name
+                raise AnalysisError(f"printing of {a!r}")
+            done = False
+            for prec in tuple(precs) + (p_sum, p_sum + 1, p_pow):
+                self_v = Opaque("self")
+                it = Interp(calls={f"{me}.rec": rec, me: rec,
+                                   **helper_calls(me, class_node, self_v)},
+                            attrs=attrs)
+                env = dict(consts)
+                try:
+                    got = it.call_function(fn, [self_v, Opaque("node"), prec],
+                                           env)
+                except Raised:
+                    got = None
+                want = horner_value(exps)
+                if power_base:
+                    want = _poly_of_source(
+                        ast.unparse(ast.parse(repr(want), mode="eval"))
+                    ) if False else _subst_sym(want, "B", Poly.sym("b") ** 2)
+                val = _poly_of_source(got) if isinstance(got, str) else None
+                if val is None or val != want:
+                    wit.append((exps, prec, got, repr(want), power_base))
+                    done = True
+                    break
+                # the text stands where the enclosing precedence says: above
+                # sum level it is an operand of * / % **, read as a unit
+                if prec > p_sum:
+                    v2 = _poly_of_source(f"{got}**2")
+                    v3 = _poly_of_source(f"K*{got}")
+                    if v2 != want * want or v3 != Poly.sym("K") * want:
+                        wit.append((exps, prec, f"{got}' as an operand: 'K*{got}"
+                                    f"' / '{got}**2", repr(want), power_base))
+                        done = True
+                        break
     return wit
+
+
+def _subst_sym(poly, name, repl):
+    """poly with the symbol *name* replaced by the Poly *repl*"""
+    out = Poly()
+    for mono, c in poly.t.items():
+        term = Poly.const(1) * c
+        for n_, e in mono:
+            term = term * ((repl if n_ == name else Poly.sym(n_)) ** e)
+        out = out + term
+    return out
 
 
 # ---------------------------------------------------------------------------
